@@ -3,6 +3,7 @@ package main
 // Calls: contracts, frames, builtins, interface dispatch, default havoc.
 
 import (
+	"go/token"
 	"fmt"
 	"go/types"
 	"os"
@@ -519,6 +520,7 @@ func (x *Exec) call(st *State, in ssa.Instruction, c *ssa.CallCommon) (Value, []
 }
 
 func (x *Exec) callWith(st *State, in ssa.Instruction, c *ssa.CallCommon, fnv Value, args []Value) Value {
+	x.applyRely(st, in, c)
 	if x.fc != nil && len(x.fc.CallAsserts) > 0 {
 		site := fmt.Sprintf("%s#%d", x.calleeName(c), x.callOrd[in])
 		if cl, ok := x.fc.CallAsserts[site]; ok {
@@ -549,6 +551,11 @@ func (x *Exec) callWith(st *State, in ssa.Instruction, c *ssa.CallCommon, fnv Va
 	if fc := x.prog.funcTypeContract(c.Value.Type()); fc != nil {
 		x.externsUsed["functype "+fc.Key] = true
 		return x.applyContract(st, in, fc, nil, sig, nil, args, resT, "functype "+fc.Key)
+	}
+	if x.fromEffectFreePkg(c.Value, 0) {
+		// a function value produced by a package declared effect-free on modelled state (pkgframe), e.g. color.SprintFunc
+		x.externsUsed["function values returned by pkgframe packages are effect-free on modelled state"] = true
+		return x.freshResult(st, "dyn", resT)
 	}
 	x.abstr["dynamic call of "+c.Value.Type().String()] = true
 	f := NewFrameSet()
@@ -1412,7 +1419,11 @@ func isValueType(t types.Type) bool {
 // functionalResult: a pure function of value-typed arguments returns the same results for the same arguments;
 // its results are applications of per-function result symbols.
 func (x *Exec) functionalResult(st *State, fc *FuncContract, ptypes []types.Type, args []Value, resT types.Type) Value {
-	if !fc.Pure || len(args) != len(ptypes) || len(fc.Allocates) > 0 {
+	if !fc.Pure || len(args) != len(ptypes) || len(fc.Allocates) > 0 || len(fc.GhostSets) > 0 {
+		return nil
+	}
+	if x.prog.contractReadsState(fc) {
+		// the results may depend on ghost or heap state (file system, globals): two calls are not interchangeable
 		return nil
 	}
 	for _, t := range ptypes {
@@ -1732,4 +1743,158 @@ func fnPkgPath(f *ssa.Function) string {
 func fnInModule(f *ssa.Function) bool {
 	p := fnPkgPath(f)
 	return p == modulePath || strings.HasPrefix(p, modulePath+"/")
+}
+
+// applyRely: rely/guarantee interference. Inside functions of a package with a `rely` declaration, the environment-step
+// contract is applied (its frame havoced, its postconditions assumed) right before every call whose callee matches: the
+// call then observes a state that other processes may have changed within the rely condition.
+func (x *Exec) applyRely(st *State, in ssa.Instruction, c *ssa.CallCommon) {
+	if x.prog.Spec == nil || len(x.prog.Spec.Relies) == 0 || x.fn == nil {
+		return
+	}
+	pk := fnPkgPath(x.fn)
+	for _, r := range x.prog.Spec.Relies {
+		if r.Pkg != pk {
+			continue
+		}
+		callee := ""
+		if f := c.StaticCallee(); f != nil {
+			callee = funcKey(f)
+		} else if c.IsInvoke() {
+			callee = c.Method.FullName()
+		}
+		if callee == "" || !r.Callee.MatchString(callee) {
+			continue
+		}
+		fc := x.prog.Contracts[r.Env]
+		if fc == nil {
+			x.unsupported("rely: environment contract %s not found", r.Env)
+		}
+		x.externsUsed["rely "+r.Env+": interference by other processes is any sequence of steps satisfying this contract (assume-guarantee; the guarantee side is the before_call obligations of the same package)"] = true
+		sig := types.NewSignatureType(nil, nil, nil, types.NewTuple(), types.NewTuple(), false)
+		x.applyContract(st, in, fc, nil, sig, nil, nil, types.NewTuple(), "env "+r.Env)
+	}
+}
+
+// contractReadsState: does any clause of the contract mention state (a ghost variable, a global, a field reached through
+// something other than a parameter / result / bound variable, old(), a heap builtin)? Conservative syntactic test.
+func (p *Program) contractReadsState(fc *FuncContract) bool {
+	if fc.readsStateKnown {
+		return fc.readsState
+	}
+	names := map[string]bool{"result": true}
+	for _, n := range fc.Params {
+		names[n] = true
+	}
+	for _, n := range fc.Results {
+		names[n] = true
+	}
+	ghost := map[string]bool{}
+	if p.Spec != nil {
+		for _, g := range p.Spec.GhostVars {
+			ghost[g.Name] = true
+		}
+	}
+	var walk func(e Expr, bound map[string]bool) bool
+	rootOK := func(e Expr, bound map[string]bool) bool {
+		for {
+			switch v := e.(type) {
+			case *EField:
+				e = v.X
+			case *EIndex:
+				e = v.X
+			case *EIdent:
+				return names[v.Name] || bound[v.Name]
+			default:
+				return false
+			}
+		}
+	}
+	walk = func(e Expr, bound map[string]bool) bool {
+		switch v := e.(type) {
+		case nil:
+			return false
+		case *EIdent:
+			return ghost[v.Name] && !bound[v.Name] && !names[v.Name]
+		case *EOld:
+			return true
+		case *EUnary:
+			return walk(v.X, bound)
+		case *EBinary:
+			return walk(v.X, bound) || walk(v.Y, bound)
+		case *EField:
+			if !rootOK(v, bound) {
+				return true
+			}
+			return walk(v.X, bound)
+		case *EIndex:
+			return walk(v.X, bound) || walk(v.I, bound)
+		case *ESlice:
+			return walk(v.X, bound) || (v.Lo != nil && walk(v.Lo, bound)) || (v.Hi != nil && walk(v.Hi, bound))
+		case *ECall:
+			switch v.Fun {
+			case "heapOf", "deref", "held", "received", "seen", "pos":
+				return true
+			}
+			for _, a := range v.Args {
+				if walk(a, bound) {
+					return true
+				}
+			}
+			return false
+		case *EQuant:
+			b2 := map[string]bool{}
+			for k := range bound {
+				b2[k] = true
+			}
+			for _, q := range v.Vars {
+				b2[q.Name] = true
+			}
+			return walk(v.Body, b2)
+		}
+		return false
+	}
+	r := false
+	for _, c := range fc.Ensures {
+		if walk(c.E, map[string]bool{}) {
+			r = true
+		}
+	}
+	for _, c := range fc.Requires {
+		if walk(c.E, map[string]bool{}) {
+			r = true
+		}
+	}
+	fc.readsState, fc.readsStateKnown = r, true
+	return r
+}
+
+// fromEffectFreePkg: is the function value v the result of a call into a pkgframe package (directly, or through a local
+// variable that is only ever assigned such results)?
+func (x *Exec) fromEffectFreePkg(v ssa.Value, depth int) bool {
+	if depth > 4 {
+		return false
+	}
+	switch u := v.(type) {
+	case *ssa.Call:
+		if f := u.Common().StaticCallee(); f != nil {
+			if pk := fnPkgPath(f); pk != "" && x.prog.Spec.PkgFrames[pk] {
+				return true
+			}
+		}
+	case *ssa.UnOp:
+		if a, ok := u.X.(*ssa.Alloc); ok && u.Op == token.MUL {
+			n := 0
+			for _, r := range *a.Referrers() {
+				if st, ok := r.(*ssa.Store); ok && st.Addr == a {
+					n++
+					if !x.fromEffectFreePkg(st.Val, depth+1) {
+						return false
+					}
+				}
+			}
+			return n > 0
+		}
+	}
+	return false
 }
